@@ -510,6 +510,46 @@ macro_rules! chain_row {
                         Err(e) => vfail!("C13/extra_encode_error", "{:?}", e),
                     }
                 }
+                if extra_encode {
+                    // several symbols too many, on copies of the coder: a batch form must report an error exactly when the
+                    // per-symbol loop runs into one ("running out of ... remainders is reported as an error, never as
+                    // wrong output"), and must leave the same coder behind when there is none
+                    let sel = coder.sel();
+                    let k = src.range_usize(2, 5);
+                    let items: Vec<(usize, Tab)> = (0..k)
+                        .map(|_| {
+                            let t = gen_tab(src, PRECS[sel as usize], sel, 8);
+                            (src.below_usize(t.n()), t)
+                        })
+                        .collect();
+                    let bform = 1 + src.below(3) as u8;
+                    let mut by_loop = coder.clone();
+                    let mut loop_err = None;
+                    // (the `_reverse` batch forms and `encode_symbols` over the reversed items all encode the last item first)
+                    for (idx, (s, t)) in items.iter().enumerate().rev() {
+                        if let Err(e) = by_loop.encode(*s, t) {
+                            loop_err = Some((idx, e));
+                            break;
+                        }
+                    }
+                    let mut by_batch = coder.clone();
+                    let r = by_batch.encode_batch(&items, bform);
+                    ctx.label(if loop_err.is_some() { "surplus_batch:loop_ran_out" } else { "surplus_batch:loop_succeeded" });
+                    vcheck!(
+                        r.is_err() == loop_err.is_some(),
+                        "C13/batch_encode_outcome_differs_from_loop",
+                        "{} surplus symbols through batch form {}: {:?}, but the per-symbol loop: {:?}",
+                        k,
+                        bform,
+                        r,
+                        loop_err
+                    );
+                    if r.is_ok() {
+                        let a = by_loop.finish(binary);
+                        let b = by_batch.finish(binary);
+                        vcheck!(a == b, "C13/batch_encode_differs_from_loop", "{} surplus symbols through batch form {} left {:?}, the per-symbol loop {:?}", k, bform, b, a);
+                    }
+                }
                 vcheck!(coder.is_whole(), "C13/not_whole_after_reencoding", "after re-encoding all symbols the coder is not whole");
                 match coder.finish(binary) {
                     Ok((rem, comp)) => {
